@@ -129,21 +129,6 @@ func outside(fn func()) func() {
 	}
 }
 
-func goid() uint64 {
-	var buf [40]byte
-	n := runtime.Stack(buf[:], false)
-	// "goroutine 123 [running]:..."
-	var id uint64
-	for i := 10; i < n; i++ {
-		c := buf[i]
-		if c < '0' || c > '9' {
-			break
-		}
-		id = id*10 + uint64(c-'0')
-	}
-	return id
-}
-
 // Active reports whether a simulation is running in this process.
 func Active() bool { return active.Load() != nil }
 
